@@ -227,7 +227,7 @@ def grid(tier: str):
         rng = Rng(9000 + start)
         plans.append({'micro_seed': 9000 + start, 'knobs': {'tick': 0.002, 'drift': 0.0, 'wall_step': 0.0}, 'kinds': kinds_for(rng), 'cells': [list(c) for c in CELLS[start : start + chunk]], 'nconf': 8, 'mode': 'both'})
         plans.append(dict(jclone(plans[-1]), mode='conf', nconf=chunk))
-        plans.append(dict(jclone(plans[-2]), nconf=0, family_form=True))
+        plans.append(dict(jclone(plans[-2]), nconf=chunk, family_form=True))
     return plans
 
 
@@ -410,7 +410,12 @@ def execute(plan: dict) -> dict:
                 return
             text, valid, r = defs[st['ci']]
             confs = [dict(c) for c in base_conf]
-            if text.startswith('route '):
+            fam_text = api_spelling(plan, st['ci'], text)
+            if fam_text != text:
+                # the per-family spelling has its configuration counterpart: `announce { ipv4 { unicast <prefix> ...; } }`
+                afi, rest = fam_text.split(' ', 1)
+                confs[0] = dict(confs[0], extra=['announce {', f'    {afi} {{', f'        {rest};', '    }', '}'])
+            elif text.startswith('route '):
                 confs[0] = dict(confs[0], static=[text])
             elif text.startswith('flow route '):
                 confs[0] = dict(confs[0], extra=['flow {', '    route cfg ' + text[len('flow route '):], '}'])
